@@ -595,8 +595,8 @@ class MolGraph:
         """
         new_graph = cls()
         for mol_graph in mol_graphs:
-            new_graph._atom_attrs.update(mol_graph._atom_attrs)
-            new_graph._bond_attrs.update(mol_graph._bond_attrs)
+            new_graph._atom_attrs.update(deepcopy(mol_graph._atom_attrs))
+            new_graph._bond_attrs.update(deepcopy(mol_graph._bond_attrs))
 
             for atom, neighbors in mol_graph._neighbors.items():
                 new_graph._neighbors.setdefault(atom, set()).update(neighbors)
